@@ -4,7 +4,17 @@
 //! panic.  Decides nothing; a hit is a concrete (request, document, position).
 //!   replay search          prints "FOUND hex=<document> request=<name> line=<l> character=<c>" and exits 1
 //!   replay hex <hex> <request> <line> <character>
-use emmylua_code_analysis::{EmmyLuaAnalysis, FileId, VirtualUrlGenerator};
+//!   replay stale-signature  b.lua holds Signature(a.lua, P) as the type of an imported function; a.lua is then replaced
+//!                           by a text shorter than P (didChange re-analyses a.lua only).  Every exported request at every
+//!                           position of b.lua, and inlay hints on b.lua, must not panic.  `inlay_hint` is not exported by
+//!                           the hook: by default the statements of `get_call_signature_param_location` are replayed on the
+//!                           public API (level=mechanism: blind to a guard inside the handler); with
+//!                           `--features handler_hooks` (hook extended by proposed_hook_reexports.diff) the real entry decides.
+//!                           prints "FOUND stale-signature ..." and exits 1
+//!   replay reversed-range   `LuaDocument::to_rowan_range` (fed the client range unchanged by rangeFormatting and
+//!                           colorPresentation) on ranges whose start is after their end.  prints "FOUND reversed-range ..."
+use emmylua_code_analysis::{EmmyLuaAnalysis, FileId, LuaType, VirtualUrlGenerator};
+use emmylua_parser::{LuaAstNode, LuaCallExpr};
 use emmylua_ls::verif_hooks as h;
 use lsp_types::{CompletionTriggerKind, Diagnostic, NumberOrString, Position, Range, SignatureHelpContext, SignatureHelpTriggerKind};
 use std::panic::{AssertUnwindSafe, catch_unwind};
@@ -70,9 +80,111 @@ fn run_one(analysis: &EmmyLuaAnalysis, file_id: FileId, req: &str, pos: Position
     })).is_ok()
 }
 
+thread_local! { static LAST_PANIC: std::cell::RefCell<String> = const { std::cell::RefCell::new(String::new()) }; }
+fn last_panic() -> String { LAST_PANIC.with(|c| c.borrow().clone()) }
+
+/// Suspect A.  Request sequence: didOpen a.lua (long), didOpen b.lua, didChange a.lua (short), then requests on b.lua.
+fn stale_signature() -> i32 {
+    let generator = VirtualUrlGenerator::new();
+    let mut analysis = EmmyLuaAnalysis::new();
+    analysis.add_main_workspace(generator.base.clone());
+    let a_uri = generator.new_uri("a.lua");
+    let b_uri = generator.new_uri("b.lua");
+    let a_long = format!("local M = {{}}\n{}function M.foo(x, y) return x + y end\nreturn M\n", "-- padding padding padding\n".repeat(40));
+    let a_short = "return {}\n";
+    let b_text = "local foo = require(\"a\").foo\nfoo(1, 2)\n";
+    let a_id = analysis.update_file_by_uri(&a_uri, Some(a_long.clone())).expect("a");
+    let b_id = analysis.update_file_by_uri(&b_uri, Some(b_text.to_string())).expect("b");
+    let callee_type = |analysis: &EmmyLuaAnalysis| -> Option<LuaType> {
+        let model = analysis.compilation.get_semantic_model(b_id)?;
+        let call = model.get_root().descendants::<LuaCallExpr>().find(|c| c.syntax().text().to_string().starts_with("foo("))?;
+        Some(model.get_semantic_info(rowan::NodeOrToken::Node(call.get_prefix_expr()?.syntax().clone()))?.typ)
+    };
+    let before = callee_type(&analysis);
+    println!("before the edit: a.lua is {} bytes, type of `foo` in b.lua = {before:?}", a_long.len());
+    // textDocument/didChange on a.lua: `on_did_change_text_document` calls exactly this, for the changed file only.
+    analysis.update_file_by_uri(&a_uri, Some(a_short.to_string()));
+    let after = callee_type(&analysis);
+    println!("after the edit:  a.lua is {} bytes, type of `foo` in b.lua = {after:?}", a_short.len());
+    let _ = a_id;
+    let mut found = 0;
+    // (1) textDocument/inlayHint on b.lua.  With `--features handler_hooks` (needs proposed_hook_reexports.diff in the hook) the
+    //     real synchronous entry `inlay_hint` decides.  Without it the entry is not reachable: the statements of
+    //     inlay_hint/build_inlay_hint.rs get_call_signature_param_location (lines 93-99) are replayed on the public API; that
+    //     level shows the stale position and the rowan panic, it cannot see a guard added inside the handler.
+    #[cfg(feature = "handler_hooks")]
+    {
+        let _ = &after;
+        match catch_unwind(AssertUnwindSafe(|| h::inlay_hint(&analysis, b_id, h::ClientId::VSCode))) {
+            Ok(r) => println!("inlayHint(b.lua) after didChange(a.lua) through the real handler: completed, {} hints", r.map(|v| v.len()).unwrap_or(0)),
+            Err(_) => {
+                println!("FOUND stale-signature level=handler request=textDocument/inlayHint file=b.lua after didChange(a.lua): the handler panicked: {}", last_panic());
+                found += 1;
+            }
+        }
+    }
+    #[cfg(not(feature = "handler_hooks"))]
+    if let Some(LuaType::Signature(signature_id)) = &after {
+        let model = analysis.compilation.get_semantic_model(b_id).expect("model");
+        let sig_file_id = signature_id.get_file_id();
+        let sig_position = signature_id.get_position();
+        if let Some(root) = model.get_root_by_file_id(sig_file_id) {
+            let end = root.syntax().text_range().end();
+            println!("inlay hint lookup: token_at_offset({sig_position:?}) on the root of file {sig_file_id:?} (is a.lua: {}) whose range ends at {end:?}", sig_file_id == a_id);
+            if catch_unwind(AssertUnwindSafe(|| { let _ = root.syntax().token_at_offset(sig_position); })).is_err() {
+                println!("FOUND stale-signature level=mechanism site=inlay_hint/build_inlay_hint.rs:99 request=textDocument/inlayHint(b.lua) after didChange(a.lua): token_at_offset({sig_position:?}) beyond the end {end:?} panicked: {}", last_panic());
+                found += 1;
+            }
+        }
+    } else {
+        println!("the type of `foo` is no longer a Signature of a.lua: build_inlay_hint.rs:99 is not reached with a stale position");
+    }
+    // (2) every exported handler entry point at every position of b.lua (definition on `foo` is the route to goto_function.rs:161)
+    let mut n = 0u64;
+    for pos in positions(b_text) {
+        for req in REQUESTS {
+            n += 1;
+            if !run_one(&analysis, b_id, req, pos) {
+                println!("FOUND stale-signature request={req} file=b.lua line={} character={} after didChange(a.lua): the handler panicked: {}", pos.line, pos.character, last_panic());
+                found += 1;
+            }
+        }
+    }
+    println!("{n} (request, position) combinations on b.lua after the edit through the exported handlers ({})", REQUESTS.join(", "));
+    if found > 0 { 1 } else { println!("no panic"); 0 }
+}
+
+/// Suspect B.  `to_rowan_range` is what rangeFormatting (document_range_formatting/mod.rs:75) and colorPresentation
+/// (document_color/mod.rs:65) call with the client's `params.range` unchanged.
+fn reversed_range() -> i32 {
+    let text = "local a = 1\nlocal b = 2\nlocal c = 3\nlocal d = 4\n";
+    let (analysis, file_id) = setup(text);
+    let document = analysis.compilation.get_db().get_vfs().get_document(&file_id).expect("document");
+    let p = Position::new;
+    let cases = [("ordered", Range::new(p(0, 1), p(0, 5))), ("empty", Range::new(p(1, 3), p(1, 3))), ("beyond the document", Range::new(p(0, 0), p(99, 0))),
+        ("reversed on one line", Range::new(p(0, 5), p(0, 1))), ("reversed lines", Range::new(p(3, 0), p(1, 0))), ("reversed, start beyond the line", Range::new(p(0, u32::MAX), p(0, 0)))];
+    let mut found = 0;
+    for (name, range) in cases {
+        match catch_unwind(AssertUnwindSafe(|| document.to_rowan_range(range))) {
+            Ok(r) => println!("to_rowan_range {name} {}:{}-{}:{} -> {r:?}", range.start.line, range.start.character, range.end.line, range.end.character),
+            Err(_) => {
+                println!("FOUND reversed-range case={name:?} start={}:{} end={}:{} document={text:?}: LuaDocument::to_rowan_range panicked: {}",
+                    range.start.line, range.start.character, range.end.line, range.end.character, last_panic());
+                found += 1;
+            }
+        }
+    }
+    if found > 0 { 1 } else { println!("no panic"); 0 }
+}
+
 fn main() {
-    std::panic::set_hook(Box::new(|_| {}));
+    std::panic::set_hook(Box::new(|info| { LAST_PANIC.with(|c| *c.borrow_mut() = info.to_string().replace('\n', " ")); }));
     let a: Vec<String> = std::env::args().skip(1).collect();
+    match a.first().map(|s| s.as_str()) {
+        Some("stale-signature") => std::process::exit(stale_signature()),
+        Some("reversed-range") => std::process::exit(reversed_range()),
+        _ => {}
+    }
     if a.first().map(|s| s.as_str()) == Some("hex") {
         let text = unhex(&a[1]);
         let (analysis, file_id) = setup(&text);
